@@ -2,7 +2,7 @@
 import numpy as np
 
 from .. import gen
-from ..models import stencil, topo
+from ..models import linktable, stencil, topo
 
 ID = "C03"
 NEEDS_SHIM = False
@@ -83,7 +83,9 @@ def run_case(ctx, desc):
     else:
         ckw["to"] = to
     try:
-        g = Grid(ds, coords=cm, face_connections={"face": t}, periodic=False, autoparse_metadata=False, **gkw)
+        # the links are listed in a seeded random order of faces and axes (half of the cases): listing order is not topology
+        t_listed = linktable.listed_in_order(t, desc["dseed"]) if desc["dseed"] % 2 else t
+        g = Grid(ds, coords=cm, face_connections={"face": t_listed}, periodic=False, autoparse_metadata=False, **gkw)
     except Exception as e:
         ctx.judged(("ctor", Kx, Ky), True)
         ctx.violation("geometric-table-accepted", f"Grid raised {type(e).__name__}: {str(e)[:200]} for table {t}")
